@@ -111,6 +111,14 @@ def run(ck: Checker):
         if not positive:
             probs.append(f'L{n.lineno}: `{norm_text(n)[:60]}` is reached without a positive `isinstance(q, (queue.Queue, queue.SimpleQueue))`: a multiprocessing queue (in particular one wrapped in ResponsiveQueue because a stop event was given) gets thread-only helpers, and the object can no longer be sent to another process (cannot pickle \'_thread.lock\')')
     ck.ob('C17-7', init, thread_kind[0], not probs, probs[0] if probs else f'{len(thread_kind)} thread-kind helpers, each created under a positive isinstance test for the thread queue classes; every other queue gets multiprocessing helpers')
+    # ------------------------------------------------------------------ C17-10
+    ck.rule('C17-10', 'the responsive wrappers keep the meaning of their slices: ResponsiveQueue.put retries on queue.Full and get on queue.Empty (AGREE) — with the classes exchanged a put that stays blocked for one slice raises Full although no timeout was given, the supplier dies under back-pressure and its end marker never arrives', minimum=2)
+    rq10 = ck.repo.cls(QUEUE, 'ResponsiveQueue')
+    for mname10, want10 in (('put', 'Full'), ('get', 'Empty')):
+        m10 = rq10.method(mname10)
+        calls10 = [c for c in ast.walk(m10.node) if isinstance(c, ast.Call) and method_of(c)[1] == '_get_put']
+        ok10 = bool(calls10) and all(len(c.args) >= 3 and (dotted(c.args[2]) or '').split('.')[-1] == want10 for c in calls10)
+        ck.ob('C17-10', m10, calls10[0] if calls10 else m10.node, ok10, f'{mname10} retries on {want10}' if ok10 else f'`{norm_text(calls10[0])[:70] if calls10 else mname10}` does not hand `{want10}` to the retry loop: the slice that expires is not recognised as "still blocked", the caller sees a queue exception it never asked for')
     # ------------------------------------------------------------------ C17-9
     ck.rule('C17-9', 'no wait for an item under the token lock: the end markers (the extra one that renew removes included) are put on the data queue by consumers *while they hold* `_lids_lock`; a get on the data queue under that lock waits for an item whose producer needs the lock — both hang (WAITFOR)', minimum=1)
     bad9 = []
